@@ -399,6 +399,31 @@ func checkSetIsIota(w *World, r *Result) {
 									}
 									return true
 								})
+								// or the sort works on an auxiliary slice of (member, value) pairs that is written
+								// back, in order and unconditionally, into Members between the sort and the store:
+								// `for i, vm := range aux { e.Members[i] = vm.member }`
+								if !mentions && len(call.Args) >= 1 {
+									if aux := identOf(call.Args[0]); aux != nil {
+										auxObj := objOf(info, aux)
+										for k := j + 1; k < i; k++ {
+											rs, ok := b.List[k].(*ast.RangeStmt)
+											if !ok || identOf(rs.X) == nil || objOf(info, identOf(rs.X)) != auxObj || identOf(rs.Key) == nil || len(rs.Body.List) != 1 {
+												continue
+											}
+											as, ok := rs.Body.List[0].(*ast.AssignStmt)
+											if !ok || len(as.Lhs) != 1 || len(as.Rhs) != 1 {
+												continue
+											}
+											ix, ok := as.Lhs[0].(*ast.IndexExpr)
+											if !ok || !strings.HasSuffix(es(ix.X), ".Members") || identOf(ix.Index) == nil || objOf(info, identOf(ix.Index)) != objOf(info, identOf(rs.Key)) {
+												continue
+											}
+											if root := rootIdent(as.Rhs[0]); root != nil && identOf(rs.Value) != nil && objOf(info, root) == objOf(info, identOf(rs.Value)) {
+												mentions = true
+											}
+										}
+									}
+								}
 								if mentions {
 									nReorder++
 									byValue := f == "sort.Sort" || f == "sort.Stable" // the sortBy helper, checked by AGR-C10s
